@@ -256,6 +256,32 @@ func (g *Gen) rhs(d int, stop int) *R {
 
 func (g *Gen) chain(d int) *R {
 	e := g.atom(d)
+	if rng.Intn(5) == 0 { // bare forms ([*]..., []..., [?..]..., [1:]..., *..., [0]) exercise the ...Current node types
+		e = cur()
+		if rng.Intn(3) > 0 {
+			r := sub(cur(), fld(pick(fieldNames)))
+			if rng.Intn(3) == 0 {
+				r = g.rhs(d, 10)
+			}
+			switch rng.Intn(5) {
+			case 0:
+				e = proj(PList, e, r)
+			case 1:
+				e = proj(PFlatten, e, r)
+			case 2:
+				e = filt(e, g.cond(d-1), r)
+			case 3:
+				a, b, c := g.sliceParts()
+				e = slc(e, a, b, c, r)
+			default:
+				if g.NoValues {
+					e = proj(PList, e, r)
+				} else {
+					e = proj(PValues, e, r)
+				}
+			}
+		}
+	}
 	n := rng.Intn(4)
 	for i := 0; i < n; i++ {
 		e = g.selector(e, d-1)
